@@ -78,7 +78,9 @@ def execute(ctx, case):
     # ---- negation ----------------------------------------------------------------------------------
     # Related objects are compared like with like: all three in float64 (a float32 source would otherwise be compared with
     # float64 images of itself and differ by float32 rounding, which is not what the property is about).
-    s = Scores(posf, negf, nb_easy_pos=ep, nb_easy_neg=en, score_class=sc, equal_class=ec)
+    narrow = any(np.asarray(a_).dtype.kind == "f" and np.asarray(a_).dtype.itemsize < 8 for a_ in (pos, neg))
+    if narrow:  # integer and float64 classes are kept as they are: int -> float64 is exact, and the mix of dtypes is itself an input class
+        s = Scores(posf, negf, nb_easy_pos=ep, nb_easy_neg=en, score_class=sc, equal_class=ec)
     ng = Scores(-posf, -negf, nb_easy_pos=ep, nb_easy_neg=en, score_class=FLIP[sc], equal_class=ec)
     C(np.array_equal(s.cm(ths).matrix, ng.cm(-ths).matrix), "negated scores + flipped score_class change the confusion matrix at the negated threshold", "sym-neg-cm", thresholds=ths)
     af = Scores(a * posf + b, a * negf + b, nb_easy_pos=ep, nb_easy_neg=en, score_class=sc, equal_class=ec)
